@@ -201,6 +201,34 @@ theorem tokenizeRecord_classes (E : Env) (s : List Nat) :
     ((((((Text.fromChars s).normalize E).split E
       [CharClass.whitespace, CharClass.control, CharClass.punctuation]).strip E [CharClass.notAlphaNum]).lower E).setPos E)
 
+/-- a character that is not a letter and that the language's consonant/vowel table does not list gets the class
+    `notAlpha` -/
+theorem classOf_notAlpha (E : Env) (c : Nat) (ha : E.U.isAlphabetic c = false)
+    (hT : getCharClass E.T c = none) : classOf E c = CharClass.notAlpha := by
+  simp [classOf, hT, ha]
+
+/-- in a tokenised text, a character lying between two consecutive words is neither a letter nor a digit -/
+theorem TokInv.gap_not_alnum {E : Env} {qf : Bool} {s : List Nat} {t : Text} (h : TokInv E qf s t)
+    (i : Nat) (a b : WordShape) (ha : t.words[i]? = some a) (hb : t.words[i + 1]? = some b)
+    (p c : Nat) (hp1 : a.hi ≤ p) (hp2 : p < b.lo) (hc : t.chars[p]? = some c) : E.U.isAlnum c = false := by
+  cases hal : E.U.isAlnum c with
+  | false => rfl
+  | true =>
+    exfalso
+    obtain ⟨w, hw, ⟨hw1, hw2⟩, _⟩ := h.cover p c hc hal
+    obtain ⟨k, hk, rfl⟩ := List.mem_iff_getElem.mp hw
+    obtain ⟨hil, hie⟩ := List.getElem?_eq_some_iff.1 ha
+    obtain ⟨hjl, hje⟩ := List.getElem?_eq_some_iff.1 hb
+    have hord := List.pairwise_iff_getElem.1 h.ordered
+    have ba := h.bounds a (List.mem_of_getElem? ha)
+    have bb := h.bounds b (List.mem_of_getElem? hb)
+    rcases Nat.lt_trichotomy k i with hki | hki | hki
+    · have := hord k i hk hil hki; rw [hie] at this; omega
+    · subst hki; rw [hie] at hw2; omega
+    · by_cases e : k = i + 1
+      · subst e; rw [hje] at hw1; omega
+      · have := hord (i + 1) k hjl hk (by omega); rw [hje] at this; omega
+
 /-- a separator character that the language's consonant/vowel table does not list gets the class `notAlpha` -/
 theorem classOf_sep (E : Env) (hU : UnicodeFacts E.U E.K) (c : Nat) (hs : isSepChar E.U E.K c = true)
     (hT : getCharClass E.T c = none) : classOf E c = CharClass.notAlpha := by
@@ -215,7 +243,7 @@ theorem class_at_of_char_at (t : Text) (E : Env) (hcl : t.classes = t.chars.map 
 /-- **C14, split spelling, on tokenised texts.** Titles are results of `tokenize_record`, the query is the result
     of `tokenize_query` (generated step lists), for any language tables meeting `TablesOK`, any Unicode oracle
     meeting `UnicodeFacts` and any bounded stemmer. Premises about the typed text `s`: its first two words are
-    separated by exactly one character, a separator (whitespace, control or punctuation) that the language's
+    separated by exactly one character (necessarily not a letter or digit, C15) that the language's
     consonant/vowel table does not list, and run together they spell a title word `w` of at least 3 characters. -/
 theorem C14_split_found_tokenized (S : Sorter) (hS : SorterOK S) (E : Env)
     (hU : UnicodeFacts E.U E.K) (hT : TablesOK E.T = true) (hSt : StemHyp E)
@@ -228,7 +256,7 @@ theorem C14_split_found_tokenized (S : Sorter) (hS : SorterOK S) (E : Env)
     (hq0 : (tokenizeQuery Gen.srcProg E s).words[0]? = some q0)
     (hq1 : (tokenizeQuery Gen.srcProg E s).words[1]? = some q1)
     (hadj : q1.lo = q0.hi + 1) (sep : Nat) (hsep : (tokenizeQuery Gen.srcProg E s).chars[q0.hi]? = some sep)
-    (hsepS : isSepChar E.U E.K sep = true) (hsepT : getCharClass E.T sep = none)
+    (hsepT : getCharClass E.T sep = none)
     (w : WordShape) (hw : w ∈ r.title.words) (hn : 3 ≤ w.len)
     (hchars : wchars (tokenizeQuery Gen.srcProg E s) q0 ++ wchars (tokenizeQuery Gen.srcProg E s) q1 =
       wchars r.title w) :
@@ -239,7 +267,9 @@ theorem C14_split_found_tokenized (S : Sorter) (hS : SorterOK S) (E : Env)
   have hfin : q0.fin = true :=
     hqi.fin_query_init rfl 0 q0 hq0 (by have := (List.getElem?_eq_some_iff.mp hq1).1; omega)
   have hsepc : (tokenizeQuery Gen.srcProg E s).classes[q0.hi]? = some CharClass.notAlpha := by
-    rw [class_at_of_char_at _ E (tokenizeQuery_classes E s) _ _ hsep, classOf_sep E hU sep hsepS hsepT]
+    have hna := hqi.gap_not_alnum 0 q0 q1 hq0 hq1 q0.hi sep (Nat.le_refl _) (by omega) hsep
+    simp only [Unicode.isAlnum, Bool.or_eq_false_iff] at hna
+    rw [class_at_of_char_at _ E (tokenizeQuery_classes E s) _ _ hsep, classOf_notAlpha E sep hna.1 hsepT]
   refine C14_split_found_reachable S hS E.K hC hJ hK hP order ops ?_ hlim ix r hr _ hqi.textOK hqi.stemsLe q0 q1
     hq0 hq1 hfin hadj hsepc w hw hn hchars
   intro id t rating hm
@@ -340,7 +370,7 @@ theorem C14_split_found_tokenized_src (S : Sorter) (hS : SorterOK S)
     (hq1 : (tokenizeQuery Gen.srcProg (Gen.srcProg.env U T stem) s).words[1]? = some q1)
     (hadj : q1.lo = q0.hi + 1) (sep : Nat)
     (hsep : (tokenizeQuery Gen.srcProg (Gen.srcProg.env U T stem) s).chars[q0.hi]? = some sep)
-    (hsepS : isSepChar U Gen.srcConsts sep = true) (hsepT : getCharClass T sep = none)
+    (hsepT : getCharClass T sep = none)
     (w : WordShape) (hw : w ∈ r.title.words) (hn : 3 ≤ w.len)
     (hchars : wchars (tokenizeQuery Gen.srcProg (Gen.srcProg.env U T stem) s) q0 ++
         wchars (tokenizeQuery Gen.srcProg (Gen.srcProg.env U T stem) s) q1 = wchars r.title w) :
@@ -351,7 +381,7 @@ theorem C14_split_found_tokenized_src (S : Sorter) (hS : SorterOK S)
               (scoreHit Gen.srcConsts Gen.srcScoreOrder (tokenizeQuery Gen.srcProg (Gen.srcProg.env U T stem) s) r) :=
   C14_split_found_tokenized S hS (Gen.srcProg.env U T stem) hU hT hSt costsOK_src joinNumsOK_src
     (show 1 ≤ Gen.srcConsts.sortFactor by decide) (show 1 ≤ Gen.srcConsts.prepFactor by decide) Gen.srcScoreOrder
-    ops hops hlim ix r hr s q0 q1 hq0 hq1 hadj sep hsep hsepS hsepT w hw hn hchars
+    ops hops hlim ix r hr s q0 q1 hq0 hq1 hadj sep hsep hsepT w hw hn hchars
 
 /-- C14 (run-together spelling) at the generated constants, step lists and score order, in every language. -/
 theorem C14_joined_found_tokenized_src (S : Sorter) (hS : SorterOK S)
@@ -407,7 +437,7 @@ example (s : List Nat) (hs : s = [97, 32, 98, 99] ∨ s = [97, 98, 32, 99]) :
     C14_split_found_tokenized_src exSorter exSorter_ok toyU Gen.lang_en toyStem toyU_facts tablesOK_en
       (fun _ => toyStem_bounded _) exOpsS hops (by decide +kernel) 0
       { ix := 0, id := 7, title := tokenizeRecord Gen.srcProg exEnvE [65, 98, 99], rating := 1 }
-      (by decide +kernel) s q0 q1 hq0 hq1 hadj 32 hsep (by decide) (by decide +kernel)
+      (by decide +kernel) s q0 q1 hq0 hq1 hadj 32 hsep (by decide +kernel)
       { offset := 0, lo := 0, hi := 3, stem := 2, pos := none, fin := true } (by decide +kernel) (by decide) hchars
   rcases hs with rfl | rfl
   · obtain ⟨res, h1, h2, _⟩ := key [97, 32, 98, 99]
